@@ -81,17 +81,29 @@ def _cfg_prefix(tier):
     for (c, step, kw, alt, extra) in plan:
         for which in ('velocity', 'drop', 'altitude', 'all'):
             out.append({'carrier': c, 'step_ft': step, 'kw': kw, 'altitude_ft': alt, 'extra': extra, 'which': which, 'K': K})
+    # inclined SIGHT lines (the limits are about the projectile's height, not about its offset from the sight line)
+    for (c, step, kw, alt, extra) in [('A', 100.0, dict(look_deg=12.0), 0.0, False), ('C', 200.0, dict(look_deg=-15.0, relative_deg=5.0), 0.0, True)]:
+        for which in ('drop', 'all'):
+            out.append({'carrier': c, 'step_ft': step, 'kw': kw, 'altitude_ft': alt, 'extra': extra, 'which': which, 'K': K})
+    # no limit in reach, SYMBOLIC range: the call returns a trajectory that reaches the range (winds that stretch / shrink the ground advance per step)
+    for (c, step, wind) in [('A', 2.0, 'tail30'), ('D', 6.0, 'tail30'), ('A', 100.0, 'head')] + ([('B', 60.0, 'tail30'), ('A', 0.5, 'tail30')] if tier == 'thorough' else []):
+        rmax = K * step / 2 * 0.9
+        for i in range(2 if tier == 'quick' else 4):
+            n = 2 if tier == 'quick' else 4
+            out.append({'carrier': c, 'step_ft': step, 'kw': {}, 'altitude_ft': 0.0, 'extra': bool(i % 2), 'which': 'none', 'K': K, 'wind': wind,
+                        'rlo': max(rmax * i / n, step * 1.01), 'rhi': rmax * (i + 1) / n})
     return out
 
 
 @harness('C04.prefix', 'C04', configs=_cfg_prefix, functions=FUNCS, cost=15, engine_opts={'div_check': False, 'nl_axioms_in_feasibility': False},
-         must_reach=['check:prefix_identical_to_unlimited_run', 'check:earlier_rows_respect_limits', 'tripped', 'completed'],
+         must_reach=['check:prefix_identical_to_unlimited_run', 'check:earlier_rows_respect_limits', 'check:returned_trajectory_reaches_the_range', 'tripped', 'completed'],
          allow_cut=['horizon'],
          bounds='carriers C (75 deg and -20 deg launch), D (300 fps at -1300 ft) [thorough: + vertical launch, D at 5000 ft, A] with coarse integration steps; '
-                'horizon K <= 12 (quick) / 24 (thorough) integration steps; one, or all three, limits symbolic (others disabled); plain and extra-data',
+                'horizon K <= 12 (quick) / 24 (thorough) integration steps; one, or all three, limits symbolic (others disabled); plain and extra-data; inclined sight lines (A 12 deg, C -15 deg); '
+                'no limit in reach with SYMBOLIC range under 30 mph tail / head winds: the returned trajectory reaches the range',
          assumptions=['interpolated rows: speed may undershoot the limit by the chord error of linear interpolation; tolerance 1e-3 relative on the velocity limit for rows before the last'],
          outside=['shots not in the carrier list (covered per step by C04.reason)'])
-def c04_prefix(ctx, carrier, step_ft, kw, altitude_ft, extra, which, K):
+def c04_prefix(ctx, carrier, step_ft, kw, altitude_ft, extra, which, K, wind='none', rlo=None, rhi=None):
     p = pybc()
     U = p.Unit
     big = 1e12
@@ -100,9 +112,13 @@ def c04_prefix(ctx, carrier, step_ft, kw, altitude_ft, extra, which, K):
     altmin = ctx.real('min_altitude', -3000, 8000) if which in ('altitude', 'all') else -big
     rng = K * step_ft / 2 * 0.9
     rec = step_ft * 1.5
-    calc, shot = carriers.make(carrier, step_ft, 'none', altitude_ft=altitude_ft,
+    if which == 'none':
+        rng = ctx.real('range_ft', rlo, rhi)
+        rec = float(step_ft)
+        vmin = 0.0
+    calc, shot = carriers.make(carrier, step_ft, wind, altitude_ft=altitude_ft,
                                config={'cMinimumVelocity': vmin, 'cMaximumDrop': drop, 'cMinimumAltitude': altmin}, **kw)
-    free, fshot = carriers.make(carrier, step_ft, 'none', altitude_ft=altitude_ft,
+    free, fshot = carriers.make(carrier, step_ft, wind, altitude_ft=altitude_ft,
                                 config={'cMinimumVelocity': -1.0, 'cMaximumDrop': -big, 'cMinimumAltitude': -big}, **kw)
     import py_ballisticcalc.trajectory_calc._trajectory_calc as tc
     steps = [0]
@@ -135,7 +151,9 @@ def c04_prefix(ctx, carrier, step_ft, kw, altitude_ft, extra, which, K):
         ref = rows          # a projectile that moves backwards never completes without limits: no reference run
     if err is None:
         ctx.reach('completed')
-        ctx.check('complete_run_identical', len(rows) == len(ref) and all(tuple(a) == tuple(b) for a, b in zip(rows, ref)))
+        ctx.check('complete_run_identical', len(rows) == len(ref) and all(_same_row(a, b) for a, b in zip(rows, ref)))
+        # ... and it reaches the requested range: the last row is the last multiple of the record step within the range (or one beyond it)
+        ctx.check('returned_trajectory_reaches_the_range', (rows[-1].distance >> U.Foot) + rec > rng, info={'rows': len(rows)})
         body = rows[1:]
     else:
         ctx.reach('tripped')
